@@ -20,7 +20,8 @@ package redisemu
 //@ trusted walks the watch table and compares versions (C10); reads only
 //@ pure
 //@ requires cs != nil
-//@ requires [C09] exclusive: held
+// C10: the watch check and the replay of the queue are one atomic step: both run under the exclusive lock
+//@ requires [C09,C10] exclusive: held
 
 //@ func nativeArrayToResp
 //@ trusted value constructor
@@ -66,7 +67,7 @@ package redisemu
 //@ ensures cleared: emptymap(ctx.cs.watches) && ctx.cs.cmdQueue == old(ctx.cs.cmdQueue)
 
 //@ func fnExec
-//@ prop C09
+//@ prop C09 C10
 //@ requires ctxOK(ctx)
 //@ requires [C09] unlocked: !held && lockMode(ctx.dsc)
 //@ requires ctx.cd.dss != nil
